@@ -72,6 +72,45 @@ def gen(rng, tier):
     return progs, cases, hist
 
 
+WIDTH = [1, 1, 2, 2, 4, 4, 8, 8]
+ACC_SIZE = {0: (0, 1), 1: (4, 4), 2: (1, 1), 3: (0, 1)}      # (storage, alignment) of the accessor kinds
+
+
+def rup(a, b):
+    return ((a + b - 1) // b) * b
+
+
+def property_holds(meta, got):
+    """C18's statement evaluated on the implementation's own numbers (attribute configurations)"""
+    szE, emE, szM, emM, szMD, emMD = got
+    w, nd, R, lay = WIDTH[meta["t"]], meta["ndyn"], meta["rank"], meta["lay"]
+    if nd == 0:
+        if not (emE == 1):
+            return "extents without dynamic extents is not an empty class"
+    elif szE != nd * w or emE:
+        return "sizeof(extents) = %d, rank_dynamic x sizeof(index_type) = %d" % (szE, nd * w)
+    if lay in (0, 1):
+        if szM != szE or emM != emE:
+            return "layout_left/right mapping adds to its extents: %d vs %d" % (szM, szE)
+    elif lay == 2:
+        if R == 0:
+            if not emM:
+                return "rank-0 layout_stride mapping is not empty"
+        elif szM != (nd + R) * w or emM:
+            return "sizeof(layout_stride mapping) = %d, (rank_dynamic + rank) x sizeof(index_type) = %d" % (szM, (nd + R) * w)
+    else:
+        if not (szE <= szM <= rup(szE + w, w)):
+            return "padded mapping adds more than one padded stride: sizeof %d, extents %d, index_type %d" % (szM, szE, w)
+    sM = 0 if emM else szM
+    sA, aA = ACC_SIZE[meta["acc"]]
+    upper = rup(8 + rup(sM, aA) + sA, 8)
+    if emMD or not (8 <= szMD <= upper):
+        return "sizeof(mdspan) = %d exceeds handle + mapping + accessor = %d" % (szMD, upper)
+    if sM == 0 and sA == 0 and szMD != 8:
+        return "mdspan with empty mapping and accessor is not pointer-sized: %d" % szMD
+    return None
+
+
 def judge(r, cfg):
     md, im, meta = r["model"], r["impl"].get(cfg), r["meta"]
     if im is None:
@@ -84,7 +123,11 @@ def judge(r, cfg):
         a, b = ints(im.get("sz")), ints(md.get("sz"))
         if a != b:
             diff = ["%s = %s, model %s" % (n, x, y) for n, x, y in zip(names, a, b) if x != y]
-            out.append(("sz", "object layout differs from the layout model: " + "; ".join(diff), True))
+            why = property_holds(meta, a) if len(a) == 6 else "malformed output"
+            if why:
+                out.append(("sz", "object layout differs from the layout model: " + "; ".join(diff) + " -- " + why, True))
+            else:
+                out.append(("sz", "object layout differs from the layout model (the ABI model no longer describes the classes), but the sizes still satisfy the property's statement: " + "; ".join(diff), False))
     a, b = ints(im.get("tc")), ints(md.get("tc"))
     if a != b:
         tn = ["extents", "mapping", "accessor", "mdspan"]
